@@ -262,7 +262,7 @@ Lemma cmd_consumes c st f rest tl evs st' fs' k :
   cmd c st f rest tl = (evs, st', fs', k) -> (List.length fs' <= List.length rest)%nat.
 Proof.
   unfold cmd. intros H.
-  destruct f as [t body|t size [tr|]|t size].
+  destruct f as [t body|t size [tr|]|t size|].
   - destruct (st_discard st && negb (Byte.eqb t x53) && negb (Byte.eqb t x58)); [injection H as <- <- <- <-; lia|].
     destruct (Byte.eqb t x51).
     { destruct (simple_query c body rest tl) as [[evs1 fs1] k1] eqn:E. injection H as <- <- <- <-.
@@ -290,6 +290,7 @@ Proof.
   - injection H as <- <- <- <-. cbn. lia.
   - destruct (do_oversize c st t size) as [a b]. injection H as <- <- <- <-. lia.
   - destruct (do_oversize c st t size) as [a b]. injection H as <- <- <- <-. lia.
+  - injection H as <- <- <- <-. cbn. lia.
 Qed.
 
 (* handling of the connection ends: with the fuel [serve] provides, the loop's
